@@ -196,12 +196,23 @@ def build_spec(kind, sd):
     # (the order of the two configuration calls is the caller's business: half of the specifications that have both
     # get the sampling period first and the default unit afterwards)
     period_first = sd.get('unit') is not None and sd.get('period') is not None and len(sd.get('text', '')) % 2 == 1
+
+    def configure_period():
+        per = tuple(sd['period'])
+        if per[1] == 's' and (len(per) < 3 or per[2] == 0.1) and len(sd.get('text', '')) % 3 == 0:
+            # a period in seconds with the default tolerance, written the short way - set_sampling_period(p): the
+            # documented defaults are unit 's' and tolerance 0.1, whatever the object was configured with before
+            s.set_sampling_period(500, 'ms', 0.25)
+            s.set_sampling_period(per[0])
+            REC.counts['config:period-with-default-arguments-after-another-configuration'] += 1
+        else:
+            s.set_sampling_period(*per)
     if period_first:
-        s.set_sampling_period(*sd['period'])
+        configure_period()
     if sd.get('unit') is not None:
         s.unit = sd['unit']
     if sd.get('period') is not None and not period_first:
-        s.set_sampling_period(*sd['period'])
+        configure_period()
     for sub in sd.get('subspecs', ()):
         s.add_sub_spec(sub)
     s.spec = sd['text']
